@@ -267,12 +267,15 @@ fn sample_inputs(rng: &mut StdRng, a: Api, which: usize) -> (Vec<u8>, String) {
 }
 
 fn opt_for(a: Api, input: &[u8]) -> Api {
-    // size-carrying options need the true size: computed from the oracle
+    // size-carrying options need the true size: decode once with a huge size to learn it
     match a {
-        Api::LzmaDec(Opt::ReadHeaderButUseProvided { .. }) => {
-            let e = crate::oracle::expect_lzma(input, Opt::ReadHeaderButUseProvided { n: None }, None);
-            let _ = e;
-            a
+        Api::LzmaDec(Opt::ReadHeaderButUseProvided { .. }) | Api::LzmaDec(Opt::UseProvided { .. }) => {
+            let with_hdr = matches!(a, Api::LzmaDec(Opt::ReadHeaderButUseProvided { .. }));
+            let hl = if with_hdr { 13 } else { 5 };
+            let p = crate::coding::Props::from_byte(input[0]).unwrap();
+            let r = crate::refdec::decode(&input[hl..], p, 4096, Some(u64::MAX), None).unwrap();
+            let n = Some(r.out.len() as u64);
+            if with_hdr { Api::LzmaDec(Opt::ReadHeaderButUseProvided { n }) } else { Api::LzmaDec(Opt::UseProvided { n }) }
         }
         _ => a,
     }
@@ -283,6 +286,8 @@ pub fn run(prop: &str, seed: u64, ninputs: usize, trace_path: Option<&str>, rep:
     let mut trace: Vec<String> = vec![];
     let apis = [
         Api::LzmaDec(Opt::ReadFromHeader),
+        Api::LzmaDec(Opt::ReadHeaderButUseProvided { n: None }),
+        Api::LzmaDec(Opt::UseProvided { n: None }),
         Api::Lzma2Dec,
         Api::XzDec,
         Api::LzmaEnc(0),
@@ -339,6 +344,10 @@ pub fn run(prop: &str, seed: u64, ninputs: usize, trace_path: Option<&str>, rep:
                 k += rstep;
             }
             scripts.push((format!("read#{}", probe.reads), Faults { read_at: probe.reads, ..Default::default() }));
+            // byte-wise source: one fault position per input byte at the start (header fields, preamble)
+            for k in 1..=40usize {
+                scripts.push((format!("read#{}@bytewise", k), Faults { read_at: k, frags: vec![1], ..Default::default() }));
+            }
             for sp in [vec![1usize], vec![3], vec![1, 7, 2], vec![rng.gen_range(1..50), rng.gen_range(1..9)]] {
                 scripts.push((format!("short{:?}", sp), Faults { short: sp.clone(), ..Default::default() }));
                 scripts.push((format!("short{:?}+frag", sp), Faults { short: sp, frags: vec![1, 3, 2], ..Default::default() }));
@@ -433,14 +442,16 @@ fn api_from_name(n: &str) -> Option<Api> {
         "LzmaEnc(0)" => Api::LzmaEnc(0),
         "LzmaEnc(1)" => Api::LzmaEnc(1),
         "LzmaEnc(2)" => Api::LzmaEnc(2),
+        s if s.starts_with("LzmaDec(ReadHeaderButUseProvided") => Api::LzmaDec(Opt::ReadHeaderButUseProvided { n: None }),
+        s if s.starts_with("LzmaDec(UseProvided") => Api::LzmaDec(Opt::UseProvided { n: None }),
         s if s.starts_with("LzmaDec") => Api::LzmaDec(Opt::ReadFromHeader),
         _ => return None,
     })
 }
 
 pub fn replay_value(v: &Value, prop: &str, rep: &mut Report) {
-    let a = api_from_name(v["api"].as_str().unwrap_or("")).expect("api");
     let input = crate::report::unhex(v["input_hex"].as_str().unwrap());
+    let a = opt_for(api_from_name(v["api"].as_str().unwrap_or("")).expect("api"), &input);
     let fj = &v["faults"];
     let g = |k: &str| fj[k].as_u64().unwrap_or(0) as usize;
     let lst = |k: &str| -> Vec<usize> { fj[k].as_array().map(|a| a.iter().map(|x| x.as_u64().unwrap() as usize).collect()).unwrap_or_default() };
